@@ -67,6 +67,35 @@ theorem advance_panics_iff (b : AbiBuffer) (amt : Nat) (hc : b.cursor ≤ b.item
   · simp only [h, if_false]
     by_cases hk : b.kind != .lists <;> simp [hk] <;> omega
 
+/-- the loop of `advance` as written in the code (`cursor += 1` first, `dealloc_lists(ptr)`, `ptr` moves by
+one element) deallocates exactly the `n` values starting at `ptr`, in order, and moves the cursor by `n` -/
+theorem advanceLoop_spec (b : AbiBuffer) (ptr n : Nat) (h : ptr + n ≤ b.items.length) :
+    b.advanceLoop ptr n = ({ b with cursor := b.cursor + n }, ((b.items.drop ptr).take n).map (evDli b.c)) := by
+  induction n generalizing b ptr with
+  | zero => simp [advanceLoop]
+  | succ n ih =>
+    have hlt : ptr < b.items.length := by omega
+    have hih := ih { b with cursor := b.cursor + 1 } (ptr + 1) (by simp only []; omega)
+    simp only [advanceLoop, hih, List.getElem?_eq_getElem hlt]
+    refine Prod.ext ?_ ?_
+    · simp only [AbiBuffer.mk.injEq, true_and, and_true]; omega
+    · have hd : List.drop ptr b.items = b.items[ptr] :: List.drop (ptr + 1) b.items := List.drop_eq_getElem_cons hlt
+      simp only [List.singleton_append, hd, List.take_succ_cons, List.map_cons]
+
+/-- **the code's `advance` (two asserts, list check, incremental loop) equals the closed form** -/
+theorem advanceRust_eq_advance (b : AbiBuffer) (amt : Nat) : b.advanceRust amt = b.advance amt := by
+  unfold advanceRust advance
+  by_cases h1 : amt + b.cursor > b.items.length
+  · simp [h1]
+  · simp only [h1, if_false]
+    by_cases hk : (b.kind != .lists) = true
+    · simp [hk]
+    · simp only [hk, Bool.false_eq_true, if_false]
+      have h2 : ¬ amt > b.items.length - b.cursor := by omega
+      simp only [h2, if_false]
+      rw [advanceLoop_spec b b.cursor amt (by omega)]
+      simp [window]
+
 /-- `take_vec` hands back exactly the unsent values, lifts each of them once (if they were lowered),
 releases the slab if there is one, and leaves an empty buffer -/
 theorem takeVec_spec (b : AbiBuffer) :
